@@ -85,6 +85,7 @@ type Config struct {
 }
 
 type Explorer struct {
+	firstViolation time.Time // when the first (unlisted) counterexample of this harness was recorded
 	P    *Program
 	cfg  Config
 	fn   *ssa.Function
@@ -259,6 +260,17 @@ func (e *Explorer) runPath(spec pathSpec, solver *Solver) {
 		atomic.StoreInt32(&e.stop, 1)
 		return
 	}
+	// a counterexample is the verdict: keep looking for further, different
+	// ones for a while (they help triage), not until the whole space - which
+	// a defect may have blown up - is exhausted
+	e.mu.Lock()
+	fv := e.firstViolation
+	e.mu.Unlock()
+	if !fv.IsZero() && time.Since(fv) > violationGrace {
+		e.note("stopped " + violationGrace.String() + " after the first counterexample of this harness (exploration not exhaustive)")
+		atomic.StoreInt32(&e.stop, 1)
+		return
+	}
 	atomic.AddInt64(&e.paths, 1)
 	solver.Reset()
 	i := e.newInterp(solver, spec)
@@ -358,6 +370,10 @@ func (e *Explorer) runPath(spec pathSpec, solver *Solver) {
 		atomic.StoreInt32(&e.stop, 1)
 	}
 }
+
+// violationGrace: how long a harness keeps exploring after its first
+// counterexample.
+const violationGrace = 90 * time.Second
 
 func (e *Explorer) note(msg string) {
 	e.mu.Lock()
@@ -854,6 +870,9 @@ func (i *interpreter) reportViolation(label string, m map[string]uint64) {
 		if old.Label+fmt.Sprint(old.Observe) == sig {
 			return
 		}
+	}
+	if len(e.violations) == 0 {
+		e.firstViolation = time.Now()
 	}
 	e.violations = append(e.violations, v)
 }
